@@ -209,6 +209,31 @@ func init() {
 						root = p
 					}
 					okk := false
+					// the calls may sit in a function of their own that the exchange starts (`go s.reinstate(adp,
+					// msg)`, also through a method value): then the place that matters is that call
+					if root != ex && root.Parent() == nil {
+						var sites []ssa.Instruction
+						all := true
+						for _, g := range r.w.Funcs(sp) {
+							eachInstr(g, func(j ssa.Instruction) {
+								cc := callCommon(j)
+								if cc == nil || resolveCallee(cc) != root {
+									return
+								}
+								gr := g
+								for gr.Parent() != nil {
+									gr = gr.Parent()
+								}
+								if gr != ex || g != ex {
+									all = false
+								}
+								sites = append(sites, j)
+							})
+						}
+						if all && len(sites) == 1 {
+							root, mk = ex, sites[0]
+						}
+					}
 					if root == ex && mk != nil {
 						onReply, underCheck := false, false
 						for _, f := range facts(mk.Block()) {
